@@ -26,7 +26,7 @@ GAPS = [(), ('sp',), ('blk',), ('sp', 'blk'), ('blk', 'sp'), ('sp', 'blk', 'sp')
 WS_ALTS = [' ', '\n', '\n\n', '\n\n\n\n']
 
 
-def sequences(n_items, trailing_comma_options=(False, True), GAPS=GAPS):
+def sequences(n_items, trailing_comma_options=(False, True), GAPS=GAPS, last_kinds=('item',)):
     """token categories between the delimiters: items separated by commas, a gap (blanks / block comment) at every position"""
     if n_items == 0:
         for g in GAPS:
@@ -49,7 +49,9 @@ def sequences(n_items, trailing_comma_options=(False, True), GAPS=GAPS):
             # whitespace tokens are never adjacent
             if any(a == 'sp' and b == 'sp' for a, b in zip(seq, seq[1:])):
                 continue
-            yield seq
+            last = max(q for q, c in enumerate(seq) if c == 'item')
+            for lk in last_kinds:
+                yield seq[:last] + [lk] + seq[last + 1:]
 
 
 def text_of(at):
@@ -95,6 +97,20 @@ def wrap(kt, construct, list_kids):
         return Node(kt.k('LetBinding'), children=[Node(kt.k('Let'), text=Str.lit('let')), sp(), lst, sp(), Node(kt.k('Eq'), text=Str.lit('=')), sp(),
                                                   Node(kt.k('Ident'), text=Str.lit('x'))])
     return lst
+
+
+def cblock_node(kt, names, one_line=True, semi=True):
+    """`{ a; b }` as the parser builds it"""
+    sp = lambda t: Node(kt.k('Space'), text=Str.lit(t))
+    code = []
+    for q, nm in enumerate(names):
+        if q:
+            if semi:
+                code.append(Node(kt.k('Semicolon'), text=Str.lit(';')))
+            code.append(sp(' ' if one_line else '\n'))
+        code.append(Node(kt.k('Ident'), text=Str.lit(nm)))
+    return Node(kt.k('CodeBlock'), children=[Node(kt.k('LeftBrace'), text=Str.lit('{')), sp(' '), Node(kt.k('Code'), children=code), sp(' '),
+                                             Node(kt.k('RightBrace'), text=Str.lit('}'))])
 
 
 def item_node(kt, construct, i):
@@ -168,6 +184,37 @@ def relex(toks, kt, construct):
             if state != 'done':
                 return None
             kids.append(Node(kt.k('Named'), children=named))
+        elif w == '{':
+            # a code block: `{` [ws] stmt ((`;` | ws) stmt)* [ws] `}`
+            blk = [Node(kt.k('LeftBrace'), text=Str.lit('{'))]
+            code = []
+            ws2 = ''
+            closed = False
+            while q < len(inner):
+                t2 = inner[q]
+                q += 1
+                if t2 in (('s',), ('nl',)):
+                    ws2 += ' ' if t2 == ('s',) else '\n'
+                    continue
+                if t2 == ('w', '}'):
+                    closed = True
+                    break
+                if ws2:
+                    (code if code else blk).append(Node(kt.k('Space'), text=Str.lit(ws2)))
+                    ws2 = ''
+                if t2 == ('w', ';'):
+                    code.append(Node(kt.k('Semicolon'), text=Str.lit(';')))
+                elif re.match(r'^[A-Za-z_]', t2[1]):
+                    code.append(Node(kt.k('Ident'), text=Str.lit(t2[1])))
+                else:
+                    return None
+            if not closed or not code:
+                return None
+            blk.append(Node(kt.k('Code'), children=code))
+            if ws2:
+                blk.append(Node(kt.k('Space'), text=Str.lit(ws2)))
+            blk.append(Node(kt.k('RightBrace'), text=Str.lit('}')))
+            kids.append(Node(kt.k('CodeBlock'), children=blk))
         elif re.match(r'^[A-Za-z_]', w):
             kids.append(Node(kt.k('Ident'), text=Str.lit(w)))
         else:
@@ -183,7 +230,7 @@ def text_of_str(s):
     return [('s',) if part == ' ' else ('w', part) for part in re.findall(r'[A-Za-z_][A-Za-z0-9_]*| |.', s)]
 
 
-def explore(S, max_items=2, constructs=('call', 'array'), gaps=GAPS, ws_alts=WS_ALTS, max_spaces=6, min_items=0):
+def explore(S, max_items=2, constructs=('call', 'array'), gaps=GAPS, ws_alts=WS_ALTS, max_spaces=6, min_items=0, last_kinds=('item',)):
     kt = T.KT
     core = S.core
     f_attr = S.find_fn(core, 'AttrStore::new')
@@ -192,7 +239,7 @@ def explore(S, max_items=2, constructs=('call', 'array'), gaps=GAPS, ws_alts=WS_
     tasks = []
     for construct in constructs:
         for n in range(min_items, max_items + 1):
-            for seq in sequences(n, GAPS=gaps):
+            for seq in sequences(n, GAPS=gaps, last_kinds=last_kinds if construct in ('call', 'array') else ('item',)):
                 if seq.count('sp') > max_spaces:
                     continue
                 if construct in ('array', 'destruct') and n == 1 and seq.count('comma') == 0:
@@ -208,6 +255,10 @@ def explore(S, max_items=2, constructs=('call', 'array'), gaps=GAPS, ws_alts=WS_
                     for i, c in enumerate(seq):
                         if c == 'item':
                             kids.append(item_node(kt, construct, i))
+                        elif c == 'cblock2':
+                            kids.append(cblock_node(kt, ['a%d' % i, 'b%d' % i]))
+                        elif c == 'cblock1':
+                            kids.append(cblock_node(kt, ['a%d' % i]))
                         elif c == 'comma':
                             kids.append(Node(kt.k('Comma'), text=Str.lit(',')))
                         elif c == 'blk':
@@ -276,6 +327,10 @@ def source_of(info):
     for i, c in enumerate(info['tokens']):
         if c == 'item':
             s += ('k%d: v%d' % (i, i)) if info['construct'] == 'dict' else 'i%d' % i
+        elif c == 'cblock2':
+            s += '{ a%d; b%d }' % (i, i)
+        elif c == 'cblock1':
+            s += '{ a%d }' % i
         elif c == 'comma':
             s += ','
         elif c == 'blk':
@@ -306,8 +361,10 @@ def confirm(S, info):
 def role_of(info):
     """class of a fixed-point finding, by what differs between the passes"""
     a, b = info.get('first_pass', ''), info.get('second_pass', '')
-    if a.count('\n') != b.count('\n'):
+    if a.count('\n\n') != b.count('\n\n'):
         return 'blank-lines'
+    if a.count('\n') != b.count('\n'):
+        return 'line-breaks'
     if a.replace(' ', '') == b.replace(' ', ''):
         return 'blanks-around-comment' if '/*' in a else 'blanks'
     return 'tokens'
